@@ -77,6 +77,10 @@ def effect_controls():
     calls = {fn: [s.get("full", s["detail"]) for s in hazards.sites(f, f.bodies[fn]) if s["kind"] in ("call", "fnref")] for fn in ("clock", "hash_order") if fn in f.bodies}
     found["clock-callee"] = any("Instant::now" in c for c in calls.get("clock", []))
     found["hash-order-callee"] = any("hash_map" in c or "HashMap" in c for c in calls.get("hash_order", []))
+    import c12
+    _, amb = c12.ambient_reach(f, {"clock", "seeded_map"})
+    found["ambient-reach-clock"] = any(fam == "clock" and local == "clock" for p, fam, local, chain in amb)
+    found["ambient-reach-through-upstream"] = any(local == "seeded_map" and len(chain) > 1 for p, fam, local, chain in amb)
     missing = [k for k, v in found.items() if not v]
     if missing:
         raise Inconclusive("positive controls of the effect analysis not reported: %s" % missing)
